@@ -22,7 +22,11 @@ type PropConfig struct {
 	Trusted []string `json:"trusted"` // standing assumptions for the evidence
 	MinObl  int      `json:"min_obligations"`
 	Include []string `json:"include_props"` // obligations tagged with these properties also count (same code, other build)
+	Replay  string   `json:"replay"`        // argument-less replay template run for a failed obligation whose contract names none
 }
+
+// propReplay: property id -> default replay template.
+var propReplay = map[string]string{}
 
 func loadPropConfig(verifDir, id string) (*PropConfig, error) {
 	data, err := os.ReadFile(filepath.Join(verifDir, "props.json"))
@@ -30,6 +34,13 @@ func loadPropConfig(verifDir, id string) (*PropConfig, error) {
 		return nil, err
 	}
 	var all []PropConfig
+	defer func() {
+		for _, pc := range all {
+			if pc.Replay != "" {
+				propReplay[pc.ID] = pc.Replay
+			}
+		}
+	}()
 	if err := json.Unmarshal(data, &all); err != nil {
 		return nil, fmt.Errorf("props.json: %v", err)
 	}
